@@ -282,6 +282,7 @@ func (x *Exec) execInstr(fc *funcCtx, n *node, ins ssa.Instruction) {
 	env := n.env
 	op := func(v ssa.Value) Value { return x.operandIn(env, v, st) }
 	x.curPos = ins.Pos()
+	x.curInstr = ins
 	switch i := ins.(type) {
 	case *ssa.DebugRef:
 		if !i.IsAddr {
@@ -863,6 +864,14 @@ func (x *Exec) sid(s SliceV) *Term {
 		return IntLit(0)
 	}
 	t := x.VC.UF("sid", IntS, s.Arr, s.Off, s.Len)
+	if x.sidSeen == nil {
+		x.sidSeen = map[*Term]bool{}
+	}
+	if !x.sidSeen[t] {
+		x.sidSeen[t] = true
+		// the empty string has identity 0 and is the only one that has it; identities are non-negative
+		x.VC.Assume(True, And(Eq(Eq(t, IntLit(0)), Eq(s.Len, BVLit(0, 64))), IntCmp(">=", t, IntLit(0))), "sid-empty")
+	}
 	return t
 }
 
@@ -996,12 +1005,11 @@ func (x *Exec) convert(n *node, v Value, from, to types.Type, name string) Value
 // bvToReal converts a 64-bit vector to a Real via a fresh Int constrained bitwise... we use an
 // uninterpreted injection with ordering axioms instantiated per use (sound: only monotonicity and sign are used).
 func (x *Exec) bvToReal(t *Term, signed bool) *Term {
-	fn := "bv2real_u"
+	n := mk("bv2nat", IntS, t)
 	if signed {
-		fn = "bv2real_s"
+		n = Ite(BVCmp("bvslt", t, BVLit(0, t.S.W)), IntBin("-", n, IntBig(pow2(t.S.W))), n)
 	}
-	r := x.VC.UF(fn+fmt.Sprint(t.S.W), RealS, t)
-	return r
+	return mk("to_real", RealS, n)
 }
 
 func (x *Exec) makeInterface(n *node, v Value, from, to types.Type) Value {
